@@ -45,3 +45,30 @@ Print Assumptions C17_cancel_glob.
 Theorem C17_spec_case_closed : forall n r, rx_match true r (map swapcase n) = rx_match true r n.
 Proof. exact rx_match_swapcase. Qed.
 Print Assumptions C17_spec_case_closed.
+
+(* ---- Windows drives and UNC prefixes (model WinDrive.v of _get_win_drive, used by the parser model's root) ------------
+   `c:` followed by a separator or the end is recognised as a drive for every letter `re.I` accepts and whatever follows;
+   `//server/share/...` with plain names (the first neither `.` nor `?`) yields exactly [server; share]; the offset the
+   parser advances by never exceeds the pattern.  The regex text of a drive is built by WcParse.drive_regex: the parts
+   `re.escape`d - wrapped in `(?i:...)` when the rest of the pattern is case-sensitive - and joined by `[\\/]`. *)
+From WC Require WinDrive.
+From WC.Proofs Require WinDriveLemmas.
+Theorem C17_drive_letter_recognised : forall c rest,
+  WinDrive.drive_letter c = true -> (rest = [] \/ exists r, rest = 47%N :: r) ->
+  WinDrive.get_win_drive (c :: 58%N :: rest) =
+  (true, WinDrive.DLetter [c; 58%N], match rest with [] => false | _ => true end, match rest with [] => 2%N | _ => 3%N end).
+Proof. exact WinDriveLemmas.drive_letter_recognised. Qed.
+Print Assumptions C17_drive_letter_recognised.
+
+Theorem C17_unc_share_recognised : forall server share rest,
+  WinDriveLemmas.plain_name server -> WinDriveLemmas.plain_name share ->
+  str_eqb (WinDrive.lower server) (S_ ".") || str_eqb (WinDrive.lower server) (S_ "?") = false ->
+  WinDrive.get_win_drive (47%N :: 47%N :: server ++ 47%N :: share ++ 47%N :: rest) =
+  (true, WinDrive.DUnc [server; share], true, N.of_nat (2 + length server + 1 + length share + 1)).
+Proof. exact WinDriveLemmas.unc_share_recognised. Qed.
+Print Assumptions C17_unc_share_recognised.
+
+Theorem C17_drive_end_within : forall p rs d sl e,
+  WinDrive.get_win_drive p = (rs, d, sl, e) -> (N.to_nat e <= length p)%nat.
+Proof. exact WinDriveLemmas.drive_end_within. Qed.
+Print Assumptions C17_drive_end_within.
